@@ -32,7 +32,7 @@ def keyfn(kind, run, det):
     pk = next((k for k in ("silence", "writeerr", "shrink") if plan.get(k)), "dsterr" if plan.get("dsterr") else "none")
     if kind == "ObsNoWorkerLeft":
         sig = left_signature(det.get("left_frames"))
-        if sig and sig <= {"sendDataWriter.Write", "trzszTransfer.pipelineSendData"}:
+        if sig and "sendDataWriter.Write" in sig and sig <= {"sendDataWriter.Write", "trzszTransfer.pipelineSendData"}:
             return "left:encoder-bufinit-wait"
         return "left:" + ",".join(sorted(sig))[:80]
     d = (plan.get(pk) or {}).get("dir", "") if isinstance(plan.get(pk), dict) else ""
